@@ -1,0 +1,96 @@
+//! Verification hooks, compiled only with `--cfg cactusref_verif`.
+//!
+//! Everything in this module is read-only observation of `RcBox` state or
+//! plain counters; nothing here is reachable in a normal build.
+
+use alloc::vec::Vec;
+use core::ptr;
+use core::sync::atomic::{AtomicUsize, Ordering};
+
+use crate::link::Kind;
+use crate::rc::{RcBox, RcInnerPtr};
+use crate::Rc;
+
+/// Number of reachability traces started (`cycle_refs` invocations).
+pub static TRACE_CALLS: AtomicUsize = AtomicUsize::new(0);
+/// Number of worklist pops performed by reachability traces.
+pub static TRACE_POPPED: AtomicUsize = AtomicUsize::new(0);
+/// Number of objects whose link table was scanned by reachability traces.
+pub static TRACE_VISITED: AtomicUsize = AtomicUsize::new(0);
+/// Number of link-table entries scanned by reachability traces.
+pub static TRACE_SCANNED: AtomicUsize = AtomicUsize::new(0);
+
+/// Read and reset the trace counters: `(calls, popped, visited, scanned)`.
+pub fn take_trace_counters() -> (usize, usize, usize, usize) {
+    (
+        TRACE_CALLS.swap(0, Ordering::Relaxed),
+        TRACE_POPPED.swap(0, Ordering::Relaxed),
+        TRACE_VISITED.swap(0, Ordering::Relaxed),
+        TRACE_SCANNED.swap(0, Ordering::Relaxed),
+    )
+}
+
+#[inline]
+pub(crate) fn bump(counter: &AtomicUsize) {
+    counter.fetch_add(1, Ordering::Relaxed);
+}
+
+unsafe fn rcbox_of<T>(value: *const T) -> *const RcBox<T> {
+    let probe = core::mem::MaybeUninit::<RcBox<T>>::uninit();
+    let base = probe.as_ptr();
+    let offset = ptr::addr_of!((*base).value) as usize - base as usize;
+    value.cast::<u8>().sub(offset).cast::<RcBox<T>>()
+}
+
+impl<T> Rc<T> {
+    /// Raw `(strong, weak)` cells of the allocation whose value lives at
+    /// `value` (as returned by [`Rc::as_ptr`]).
+    ///
+    /// # Safety
+    ///
+    /// The allocation must not have been released.
+    #[doc(hidden)]
+    #[must_use]
+    pub unsafe fn __verif_peek(value: *const T) -> (usize, usize) {
+        let rcbox = rcbox_of(value);
+        ((*rcbox).strong(), (*rcbox).weak())
+    }
+
+    /// Snapshot of the link table of the allocation whose value lives at
+    /// `value`: `(value pointer of the linked object, kind, count)` with kind
+    /// 0 = forward, 1 = backward, 2 = loopback.
+    ///
+    /// # Safety
+    ///
+    /// The allocation must not have been released and its link table must not
+    /// have been moved out or be mutably borrowed.
+    #[doc(hidden)]
+    #[must_use]
+    pub unsafe fn __verif_links(value: *const T) -> Vec<(usize, u8, usize)> {
+        let rcbox = rcbox_of(value);
+        let links = (*rcbox).links().borrow();
+        links
+            .iter()
+            .map(|(link, &count)| {
+                let kind = match link.kind() {
+                    Kind::Forward => 0,
+                    Kind::Backward => 1,
+                    Kind::Loopback => 2,
+                };
+                let target = ptr::addr_of!((*link.as_ptr()).value) as usize;
+                (target, kind, count)
+            })
+            .collect()
+    }
+}
+
+/// Overwrite a moved-out field with a poison pattern so that a stale read is
+/// detected instead of silently succeeding.
+///
+/// # Safety
+///
+/// `field` must be valid for writes and its contents must have been moved out.
+#[inline]
+pub(crate) unsafe fn poison<F>(field: *mut F) {
+    ptr::write_bytes(field.cast::<u8>(), 0xA5, core::mem::size_of::<F>());
+}
